@@ -117,6 +117,14 @@ def run(ctx: Context, rep) -> None:
             return "size"
         if isinstance(e, ast.Attribute) and e.attr == "written_examples":
             return "num_true"   # truthiness of the counter, written = 1
+        if isinstance(e, ast.Compare) and len(e.ops) == 1 and isinstance(
+                e.ops[0], (ast.Is, ast.IsNot)) and any(
+                    isinstance(x, ast.Name) and x.id == PARAM
+                    for x in (e.left, e.comparators[0])) and any(
+                        isinstance(x, ast.Constant) and x.value is None
+                        for x in (e.left, e.comparators[0])):
+            return "arg_is_none" if isinstance(e.ops[0], ast.Is) \
+                else "arg_is_not_none"
         if isinstance(e, ast.Name) and e.id == PARAM:
             return "arg_truthy"
         if isinstance(e, ast.Name) and "stored" in role(e) and "arg" not in role(e):
@@ -134,6 +142,7 @@ def run(ctx: Context, rep) -> None:
     for differ in (True, False):
         vals = {"ne": differ, "eq": not differ, "size": False,
                 "num_true": True, "num_false": False,
+                "arg_is_none": False, "arg_is_not_none": True,
                 "arg_truthy": TRUTHY, "stored_truthy": TRUTHY}
         v = Valuation(we, atom, vals)
         c2 = CFG(we, oracle=v.truth)
@@ -190,6 +199,28 @@ def run(ctx: Context, rep) -> None:
                "passes the attach",
                path=cfg_t.describe_path(cfg_t.path_to(w, avoiding=attach_t))
                if w in missed else "")
+    # an empty value (custom_metadata={}) is "no metadata" for the change
+    # detection, so it must be "no metadata" for the attach too: with an empty
+    # (not None) argument and a labelled, non-empty open shard the attach is
+    # not reached (it would wipe the label of examples already written)
+    v_e = Valuation(we, atom, {
+        "ne": True, "eq": False, "size": False, "num_true": True,
+        "num_false": False, "arg_is_none": False, "arg_is_not_none": True,
+        "arg_truthy": False, "stored_truthy": TRUTHY})
+    c_e = CFG(we, oracle=v_e.truth)
+    live_e = c_e.reachable([c_e.entry],
+                           follow=lambda a, b, lab: lab not in ("exc", "raise"))
+    closes_e = set(c_e.calls(lambda c: reaches(ctx, we, c, CLOSE)))
+    bad_e = [n for n in c_e.nodes
+             if n.kind == "stmt" and n.ast in attach and n in live_e and
+             c_e.always_before(closes_e, [n], normal_only=True)]
+    rep.ob("C11.attach", not bad_e,
+           loc=we.loc(bad_e[0].ast) if bad_e else we.loc(), where=we.qualname,
+           construct="custom_metadata = {} (empty, not None): " +
+           (short(bad_e[0].ast, 60) if bad_e else "attach not reached"),
+           message="an empty metadata value must not replace the label "
+           "of a shard that already holds labelled examples (the change "
+           "detection treats it as absent, so no new shard was opened)")
     for a in attach:
         tgt = a.targets[0] if isinstance(a, ast.Assign) else a.target
         base = tgt
@@ -216,6 +247,7 @@ def run(ctx: Context, rep) -> None:
     rep.floor("C11.select", rep.count("C11.select"), 10, "instances")
     from sa.rules import shared as _sh
     _sh.check_label_copy(ctx, rep, "C11.label-copy")
+    _sh.check_one_shot(ctx, rep, "C11.one-shot", ("sedpack.io", ))
     # selection by metadata returns ALL matching shards: the predicate is
     # applied to the whole walk, before any first-k truncation (C12.stages)
     from sa.rules import common as C__
@@ -238,6 +270,12 @@ _P = "src/sedpack/io/dataset_filler.py"
 _ATTACH = ("            current_progress.shard.shard_info.custom_metadata = copy.deepcopy(\n"
            "                custom_metadata)\n")
 SELFTESTS = [
+    dict(rule="C11.attach", name="empty-dict-wipes-label", expect="fire", path=_P,
+         old="        if custom_metadata:\n            # Copy so that",
+         new="        if custom_metadata is not None:\n            # Copy so that"),
+    dict(rule="C11.attach", name="not-none-and-truthy-twin", expect="silent", path=_P,
+         old="        if custom_metadata:\n            # Copy so that",
+         new="        if custom_metadata is not None and custom_metadata:\n            # Copy so that"),
     dict(rule="C11.escape", name="drop-copy", expect="fire", path=_P,
          old=_ATTACH,
          new="            current_progress.shard.shard_info.custom_metadata = custom_metadata\n"),
